@@ -65,7 +65,17 @@ class Report:
         shutil.rmtree(rdir, ignore_errors=True)
         if self.violations:
             os.makedirs(rdir, exist_ok=True)
-            for i, v in enumerate(self.violations[:20]):
+            # keep a diverse sample: round-robin over statement tags (or 'why' for native checks)
+            by = {}
+            for v in self.violations:
+                k = str((v.get('stmt') or {}).get('tag') or v.get('why') or v.get('kind'))[:60]
+                by.setdefault(k, []).append(v)
+            picked = []
+            while len(picked) < 40 and any(by.values()):
+                for k in list(by):
+                    if by[k]:
+                        picked.append(by[k].pop(0))
+            for i, v in enumerate(picked[:40]):
                 h = hashlib.sha1(json.dumps(v, sort_keys=True, default=str).encode()).hexdigest()[:10]
                 p = os.path.join(rdir, '%s.json' % h)
                 json.dump(v, open(p, 'w'), indent=1, default=str)
